@@ -23,6 +23,8 @@ WHAT = {
             "(TopoProofs.topo_sort_perm_invariant) and, on DAGs, a complete edge-respecting order",
     "ORD": "field order of {..} & {..} reported by Value.Fields / Value.Syntax differs from merge_orders "
            "(TopoProofs.merge_orders_respects_each_order)",
+    "ORDX": "field order of x: s0 & s1 (refs: merge_orders) or of implicitly unified / embedded struct literals "
+            "(implicit_orders = order of first occurrence, TopoProofs.implicit_orders_spec) differs from the model",
 }
 
 
@@ -62,9 +64,9 @@ def run_part(ctx, quick):
             f.write("\n".join(replay_case) + "\n")
         args += ["--replay-cases", cf]
     elif quick:
-        args += ["--nsan", "800", "--ntopo", "400", "--nord", "150"]
+        args += ["--nsan", "800", "--ntopo", "400", "--nord", "300"]
     else:
-        args += ["--nsan", "12000", "--ntopo", "6000", "--nord", "1500"]
+        args += ["--nsan", "12000", "--ntopo", "6000", "--nord", "3000"]
     t1 = time.time()
     vlib.run(args, timeout=1500)
     cases = open(os.path.join(work, "cases.txt")).read().split("\n")[:-1]
@@ -75,7 +77,7 @@ def run_part(ctx, quick):
     if not (len(cases) == len(impl) == len(model)):
         raise vlib.CheckFailure("santopo: line count mismatch cases=%d impl=%d model=%d" % (len(cases), len(impl), len(model)))
 
-    kinds = {"SAN": 0, "TOPO": 0, "ORD": 0}
+    kinds = {"SAN": 0, "TOPO": 0, "ORD": 0, "ORDX": 0}
     distinct = set()
     nontrivial = 0
     mismatches = 0
@@ -110,7 +112,7 @@ def run_part(ctx, quick):
                            "(base order: %s)" % base[0])
             elif fl.get("txt") == "diff":
                 latent["position" if coh[0] == "0" else "payload"] = True
-        if k == "TOPO" and "STUCK" in mv:
+        if k in ("TOPO", "ORD", "ORDX") and "STUCK" in mv:
             bad = "model got stuck (never expected): " + mv
         if c not in distinct:
             distinct.add(c)
@@ -122,7 +124,7 @@ def run_part(ctx, quick):
             elif k == "TOPO":
                 if len(c.split("|")[1].split()) >= 2 and len(mv.split()) >= 3:
                     nontrivial += 1
-            elif k == "ORD":
+            elif k in ("ORD", "ORDX"):
                 if len(mv.split()) >= 3:
                     nontrivial += 1
         if len(samples) < 6 and len(c) < 300 and kinds[k] in (40, 41):
@@ -148,7 +150,9 @@ def run_part(ctx, quick):
         "rule": "distinct case lines; SAN: >= 3 records and Sanitize reorders or drops; TOPO: >= 2 edges and >= 3 nodes sorted; "
                 "ORD: >= 3 fields. SAN groups = one generated list + 2-3 shuffles (each its own case); TOPO graphs are built "
                 "3 times with shuffled insertion order (plus the Go map's own order), each build twice inside the harness; "
-                "ORD = {..} & {..} [& {..}] compiled twice with fresh contexts, Value.Fields and Value.Syntax orders must agree",
+                "ORD = x: {..} & {..} [& {..}], ORDX = the same orders as x: s0 & s1 (refs), x: {..} x: {..} (implicit), "
+                "x: { {..} {..} } (embed), x: s0 x: s1 (refs-implicit); each compiled twice with fresh contexts, Value.Fields and "
+                "Value.Syntax orders must agree; 1/5 of the order sets are unrelated shuffles (cyclic field graphs)",
         "case_kinds": kinds,
         "generator_classes": dict(sorted(stats.items())),
         "samples": samples,
